@@ -119,7 +119,8 @@ reg("C17", ["c17_endpoints.c"], level="fault_enumeration",
          "sink_put_chunk and both at-most variants; 'invalid': N = 0 and N > SSIZE_MAX; 'plumb': every pair of "
          "source and sink scripts up to length 3 (thorough 4) over {1, 2, all, hard error} x N = 1..6 x stream "
          "longer/shorter than N x 4 driver-style combinations x sink error EIO/ENOMEM, through sts_cbc, sts_n_cbc, "
-         "sts_drain_cbc, sts_n, sts_drain and the four _aux variants with empty auxiliary buffers of size 1..4 in "
+         "sts_drain_cbc, sts_n, sts_drain and the four _aux variants with auxiliary buffers of size 1..8 holding 0..6 "
+         "octets already, in "
          "a poisoned arena (a third of the sts_n / sts_drain runs over chunk sources expose a 1..5 octet transfer "
          "window through getbuffer); 'random': long transfers with random scripts; 'huge': single driver calls of "
          "2^31..2^32+3 octets and the largest legal count SSIZE_MAX; 'lib': the library's own buffer, chunk-list and "
@@ -131,7 +132,7 @@ reg("C17", ["c17_endpoints.c"], level="fault_enumeration",
          "(pair) or a (generator, unit); evaluations counts (script, N, entry point) executions.",
     assumptions=["the getbuffer extension has no implementer and no written contract in the tree; it is exercised the way endpoints/core.c uses it (a scratch window of the source that octets are read into before they go to the sink) for sts_n and sts_drain over chunk sources, with endpoints whose failure is final: with a window in play the plumbing retries after a sink reported -ENOMEM and the octets already taken from the source are lost - whether a sink may recover from -ENOMEM is not written down anywhere, so a sink that reports it once and accepts data afterwards is not part of these runs",
                  "plumbing scripts use partial transfers and hard errors only (zero-length/EINTR returns are exercised on the chunk API, where the statement places them)",
-                 "the auxiliary buffer's designated region is read as its free space; only empty auxiliary buffers are used"],
+                 "the auxiliary buffer's designated region is read as its free space behind the octets it already holds (buffers holding 0..6 octets are used)"],
     exhaustive={"quick": "all driver scripts up to length 5 for N = 1..6 on the exact and at-most entry points",
                 "thorough": "all driver scripts up to length 8 for N = 1..6 on the exact and at-most entry points"})
 
